@@ -1,7 +1,8 @@
 PROP = dict(
     id="C10",
     lean_modules=["TongoProofs.C10", "TongoProofs.C09"],
-    gen=["LiteApi", "TlLength"],
+    gen=["LiteApi", "TlLength", "TlBindings", "TlBindingsP1", "TlBindingsP2", "TlBindingsP3", "TlBindingsP4",
+         "TlBindingsP5", "TlBindingsP6", "TlBindingsP7", "TlBindingsP8", "TlBindingsAll"],
     # the model IS the specification for these: the TL rules applied to the schema text carried in the line
     info_ops=("tl.crcid",),  # id spelled in the schema vs CRC-32 of the declaration text: outside C10 (the property speaks of the id given in the schema line); reported in the evidence only
     spec_ops=("tl.enc", "tl.dec", "tl.fenc", "tl.fdec", "tl.req", "tl.ans", "tl.reqdec", "tl.schema",
